@@ -67,7 +67,7 @@ def table_case(draw, log=None, kmin=1):
                 passing=draw(st.sampled_from(['pos', 'kw'])),
                 explicit_x=draw(st.booleans()) if kind == 'spectrum' else True,
                 labelled=draw(st.booleans()), folded=draw(st.booleans()),
-                extra_arg=draw(st.booleans()))
+                extra_arg=draw(st.booleans()), attr_differs=draw(st.booleans()))
 
 
 def build_model(case, ys_arrays):
@@ -81,7 +81,9 @@ def build_model(case, ys_arrays):
         x, y = table[pts]
         if case['kind'] == 'spectrum':
             fs = dadi.Spectrum(np.array(y), mask_corners=True, pop_ids=pop_ids)
-            fs.extrap_x = x
+            # with an explicit extrap_x_l the documented rule is that the list is used; the results may then carry any extrap_x
+            # of their own (as every from_phi spectrum does) - here a different one, so that it matters which is used
+            fs.extrap_x = (0.37 * x + 0.011) if (case.get('explicit_x') and case.get('attr_differs')) else x
             return fs
         return np.array(y)
 
@@ -214,7 +216,7 @@ def poly_case(draw):
     cs = [draw(st.lists(coef, min_size=n, max_size=n)) for _ in range(deg + 1)]
     return dict(k=k, xs=list(xs), cs=cs, mode=mode, kind=draw(st.sampled_from(['array', 'spectrum'])),
                 shape=[n], passing=draw(st.sampled_from(['pos', 'kw'])), explicit_x=draw(st.booleans()),
-                labelled=draw(st.booleans()), extra_arg=draw(st.booleans()))
+                labelled=draw(st.booleans()), extra_arg=draw(st.booleans()), attr_differs=draw(st.booleans()))
 
 
 @REG.relation('R2-poly', strategy=poly_case, quick=(4000, 8), thorough=(60000, 16))
